@@ -140,7 +140,7 @@ def gen_step(rng: Prng) -> dict:
     elif op in ("to_subtree", "cut_enter", "cut_leave"):
         s["rm"] = [rng.below(64) for _ in range(rng.choice([0, 1, 1, 2, 3, 6]))]
     elif op == "redirect":
-        s["n"] = rng.below(64)
+        s["n"] = rng.below(64) if rng.chance(0.75) else 0  # node 0 is the present root of every sorted tree
         s["sort"] = rng.chance(0.5)
     elif op == "cat":
         s.update(t2=rng.below(64), n1=rng.below(64), n2=rng.below(64) if rng.chance(0.6) else 0,
@@ -156,6 +156,14 @@ def generate(rng: Prng, tier: str) -> dict:
     big = 40 if tier == "quick" else 60
     trees = [gen_model(w, w.choice([1, 2, 3, 4, 5, 7, 10, 16, 25, big])) for _ in range(n_trees)]
     steps = [gen_step(w) for _ in range(w.randint(2, 14))]
+    rp = rng.stream("repeat")
+    for i, st in enumerate(steps):
+        # the SAME transform (same object: transforms are cached by their specification) applied again, to the newest
+        # tree - typically its own earlier result: `b = f(a)` with `a = f(t)`
+        earlier = [s2 for s2 in steps[:i] if s2.get("k") == "apply" and s2.get("op") == "transform"]
+        if st.get("k") == "apply" and st.get("op") == "transform" and earlier and rp.chance(0.2):
+            st["spec"] = copy.deepcopy(earlier[-1]["spec"])
+            st["t"] = -1
     has_cancel = any(s["k"] == "cancel" for s in steps)
     return {"prop": PROP, "trees": trees, "steps": steps, "config": "faulting" if has_cancel else "fault_free"}
 
@@ -257,6 +265,12 @@ def apply_op(step: dict, pool: list, cache: dict):
     tree = pool[ti]["tree"]
     n = len(tree)
     relaxed = pool[ti].get("relaxed")
+    if relaxed is not None and op == "redirect":
+        # re-rooting an unsorted re-rooted tree again, this time sorted: at its present root (every other step) or
+        # anywhere
+        root_now = int(np.flatnonzero(np.asarray(tree.pid()) == -1)[0])
+        k = root_now if step["n"] % 2 else step["n"] % n
+        return "redirect_sorted", [ti], lambda: redirect_tree(tree, k, sort=True)
     if relaxed is not None and op not in ("sort_tree", "get_subtree"):
         # a tree re-rooted without sorting is only fed to sort_tree and get_subtree (both document sorted output)
         if op in ("to_subtree", "cut_enter", "cut_leave", "cut_none", "cat", "transform"):
